@@ -72,21 +72,24 @@ Sources ==
      [kind |-> "linear", stops |-> << << <<0, 1>>, <<255, 255, 0, 0>> >>, << <<1, 1>>, <<128, 0, 0, 255>> >> >>,
       start |-> <<0, 0>>, end |-> <<16, 0>>, spread |-> "Pad"],
      [kind |-> "radial", stops |-> << << <<0, 1>>, <<255, 0, 255, 0>> >>, << <<1, 2>>, <<0, 0, 0, 0>> >>, << <<1, 1>>, <<255, 0, 0, 255>> >> >>,
-      center |-> <<10, 10>>, radius |-> 8, spread |-> "Repeat"] >>
+      center |-> <<10, 10>>, radius |-> 8, spread |-> "Repeat"],
+     \* a degenerate (zero-length) gradient with translucent, strongly coloured stops: whatever it paints must be a valid colour
+     [kind |-> "linear", stops |-> << << <<0, 1>>, <<64, 255, 0, 255>> >>, << <<1, 1>>, <<96, 255, 255, 255>> >> >>,
+      start |-> <<8, 8>>, end |-> <<8, 8>>, spread |-> "Pad"] >>
 Alphas == << <<1, 1>>, <<1, 2>>, <<0, 1>>, <<1, 1>>, <<200, 255>> >>
 MaskData == <<0, 1, 2, 127, 128, 254, 255, 255, 16, 0, 255, 64>>
 Opacities == << <<1, 1>>, <<1, 2>>, <<0, 1>>, <<1, 4>>, <<254, 255>> >>
 
 (* the k-th drawing call of the product space; the parameters are independent mixed-radix *)
-(* digits of k: kind (11), shape (10), source (11), mode (32), alpha (5), aa (5), extra (60) *)
+(* digits of k: kind (11), shape (10), source (12), mode (32), alpha (5), aa (5), extra (60) *)
 DKind(k)  == k % 11
 DShape(k) == (k \div 11) % 10
-DSrc(k)   == (k \div 110) % 11
+DSrc(k)   == (k \div 110) % 12
 \* the mode digit has radix 32: the four extra values are SrcOver, by far the most used mode
-DMode(k)  == (k \div 1210) % 32
-DAlpha(k) == (k \div 38720) % 5
-DAA(k)    == (k \div 193600) % 5
-DX(k)     == (k \div 968000) % 60
+DMode(k)  == (k \div 1320) % 32
+DAlpha(k) == (k \div 42240) % 5
+DAA(k)    == (k \div 211200) % 5
+DX(k)     == (k \div 1056000) % 60
 ModeOf(d) == IF d >= 28 THEN "SrcOver" ELSE Modes[d + 1]
 Opts(k) == [blend |-> ModeOf(DMode(k)), alpha |-> Alphas[DAlpha(k) + 1], aa |-> DAA(k) # 0]
 DrawCall(k0) ==
